@@ -120,6 +120,17 @@ def check_file(ctx, mods, label, parts, opts):
             return
         results.append(r)
         sevs.append(r.severity)
+    # face: an Analyzer built by hand from the registered analyses, and the result object's own views
+    for part, r in zip(parts, results):
+        try:
+            r2 = analysis.check_safety(f.Pickled.load(part), analyzer=analysis.Analyzer(analysis.Analysis.ALL))
+            agg.count("fresh_analyzer_runs")
+            if r2.severity != r.severity or sorted(str(x) for x in r2.results) != sorted(str(x) for x in r.results):
+                agg.violation("face:fresh-analyzer", f"an Analyzer built from the registered analyses gives {r2.severity.name}, "
+                                                     f"the default one {r.severity.name} (or other findings)",
+                              {"label": label, "parts_hex": [part.hex()], "severities": [r.severity.name, r2.severity.name]})
+        except Exception as e:
+            agg.violation(f"face:fresh-analyzer-raises:{type(e).__name__}", str(e)[:150], {"label": label, "parts_hex": [part.hex()]})
     nontrivial = len(parts) > 1 or sevs[0].name != "LIKELY_SAFE"
     if not agg.case(key, nontrivial, {"label": label, "k": len(parts), "severities": [s.name for s in sevs], "cli_opts": opts}):
         return
